@@ -496,6 +496,39 @@ def _r6(rep, src, label, full):
         else:
             rep.fail('C20.R4', qf.site, '%s(%s)' % (mname, ', '.join(args)), 'answers %r on the generic collection instead of %r' % (got, want), where=qf.where)
 
+    # queries are reads: on the collection as read and on a derived one (its tag index comes from reverse()), asking for present
+    # and for absent names answers from the relation and leaves both indexes as they were
+    absent = {'has_package': (['pkg-absent'], False), 'has_tag': (['zz::absent'], False), 'tags_of_package': (['pkg-absent'], set()),
+              'packages_of_tag': (['zz::absent'], set()), 'card': (['zz::absent'], 0), 'discriminance': (['zz::absent'], 0)}
+    chooser = src.func(M + ':DB.choose_packages')
+    for derived in (False, True):
+        for mname, (args, want) in sorted(absent.items()):
+            qf = src.func(M + ':DB.' + mname)
+            rep.saw_func(qf)
+            heap, it, me = _world(src)
+            target = me
+            wlabel = 'the collection as read'
+            try:
+                if derived:
+                    target = it.call(H.Closure(chooser.node, {}, me, chooser.cls), [heap.new_list([p_ for p_ in ('pkg-one', 'pkg-three') if p_ in GEN])])
+                    wlabel = 'a collection derived by choose_packages'
+                before = (_plain(heap, heap.objs[target.name]['db'])[0], _plain(heap, heap.objs[target.name]['rdb'])[0])
+                r_ = it.call(H.Closure(qf.node, {}, target, qf.cls), list(args))
+                after = (_plain(heap, heap.objs[target.name]['db'])[0], _plain(heap, heap.objs[target.name]['rdb'])[0])
+            except H.Raised as x:
+                rep.fail('C20.R4', qf.site, 'queries for absent names leave the indexes alone', '%s(%s) on %s raises %s (line %d)' % (mname, args[0], wlabel, x.exc, x.lineno), where=qf.where)
+                continue
+            got = set(r_) if isinstance(r_, (set, frozenset)) else r_
+            if after != before:
+                grown = sorted(set(after[1]) - set(before[1])) or sorted(set(after[0]) - set(before[0]))
+                rep.fail('C20.R4', qf.site, 'queries for absent names leave the indexes alone',
+                         '%s(%r) on %s changes the collection: afterwards the %s index has the entry %r that no pair of the relation accounts for, so has_*/…_count/iter_* '
+                         'disagree with the relation' % (mname, args[0], wlabel, 'tag' if set(after[1]) != set(before[1]) else 'package', grown[:2]), where=qf.where)
+            elif got != want or isinstance(got, bool) != isinstance(want, bool):
+                rep.fail('C20.R4', qf.site, 'queries for absent names leave the indexes alone', '%s(%r) on %s answers %r instead of %r' % (mname, args[0], wlabel, got, want), where=qf.where)
+            else:
+                rep.ok('C20.R4', qf.site, '%s(%s) on %s' % (mname, args[0], wlabel), 'answers %r, indexes unchanged' % (want,))
+
 
 def check(src, rep, tier):
     rep.explanation = ('C20: (generic relation) every collection-returning method of DB, reverse(), insert() histories, the reader (with and without a '
@@ -507,7 +540,7 @@ def check(src, rep, tier):
     rep.not_decided = ['re-insertion of an existing package', 'pickle round trip', 'equality with a reference relation for arbitrary histories']
     rep.need('C20.R1', 20)
     rep.need('C20.R3', 4)
-    rep.need('C20.R4', 8)
+    rep.need('C20.R4', 20)
     rep.need('C20.R5', 12)
     rep.guard('C20.R1', r6_generic_relation, src, tier)
     rep.guard('C20.R1', r1_algebra, src)
